@@ -5,12 +5,14 @@ META = {'claimed': True,
  'level_text': 'proof: elasticarray.c, elasticqueue.c, seqptrmap.c and mpool.h are modelled on checked memory with their growth constants regenerated from the C. For every program of operations with '
                'arbitrary nrec / reclen (size-overflowing products included: refused, nothing changed) and every allocation oracle: no access outside the storage block, no failed assert, size <= '
                'alloc = block length after every operation, and every result and visible content are those of the ideal resizable byte sequence (C12_ea_refines, C12_ea_get_inside, '
-               'C12_ea_export_exact); the queue is an ideal FIFO (C12_eq_refines, C12_eq_view); the map issues numbers consecutively from 0, get = stored pointer until deleted and NULL for every '
-               'other number, getmin = least live number or -1 (C12_spm_refines, C12_spm_min_is_least); capacity: alloc/4 <= size after any successful init/resize/append/truncate and any shrink '
-               'without a refused realloc, preserved while nothing is refused, alloc <= 2*size after growth (C12_ea_capacity_*; the bound without integer rounding is refuted by init(7,1);shrink(6,1) '
-               'and documented as not a finding); the pool never hands out an object still held and its exit handler frees every cached object and the stack (C12_mpool_no_double_handout, '
-               'C12_mpool_atexit_frees_all, C12_mpool_invariant). 14 theorems, unbounded in program length and sizes (< 2^64 byte counts). Bound to the C by the correspondence run (ASan, wrapped '
-               "allocator; impl.obs = spec.obs decides the property, full line = model decides the correspondence; capacity bound evaluated on the implementation's sizes).",
+               'C12_ea_export_exact); the queue is an ideal FIFO (C12_eq_refines, C12_eq_view); the map issues numbers consecutively from 0, get = stored (non-NULL) pointer until deleted and NULL '
+               'for every other number, getmin = least live number or -1 (C12_spm_refines, C12_spm_min_is_least); capacity: alloc/4 <= size after any successful init/resize/append/truncate and any '
+               'shrink without a refused realloc, preserved while nothing is refused, alloc <= 2*size after growth (C12_ea_capacity_*; the bound without integer rounding is refuted by '
+               'init(7,1);shrink(6,1) and documented as not a finding); the pool never hands out an object still held; its exit handler is registered (exactly once) by the first malloc that reaches '
+               'the allocator, hence whenever anything is cached, held or live, and process exit returns every cached object and the stack (C12_mpool_no_double_handout, '
+               'C12_mpool_registered_when_used, C12_mpool_exit_handler_registered, C12_mpool_exit_returns_all, C12_mpool_atexit_frees_all, C12_mpool_invariant; that a registered handler runs at exit '
+               "is libc's contract). 17 theorems, unbounded in program length and sizes (< 2^64 byte counts). Bound to the C by the correspondence run (ASan, wrapped allocator; impl.obs = spec.obs "
+               "decides the property, full line = model decides the correspondence; capacity bound evaluated on the implementation's sizes).",
  'level_note': 'Trusted: Coq kernel; hand-written models bound by differential execution; the allocator is an oracle returning fresh blocks; byte counts below 2^64 / operation counts below 2^60 as '
                'stated in the theorems. Print Assumptions: closed under the global context.',
  'trusted_base': ['tools/extract/x_ds.py', 'wrapped allocator in harness/drv_ds.c'],
